@@ -94,7 +94,15 @@ class GuardClient(Client):
     """mc.clients.Client + the guard a real client obeys: frames are sent only once the handshake response
     (101 / 200) was received.  ws/h1 frames are ('cmd', k, 'ws_raw', bytes)."""
 
+    def upgraded(self) -> bool:
+        if self.h1 is not None:
+            return self.h1.switched
+        st = self.h2.streams.get(1)
+        return st is not None and st["status"] == 200
+
     def cmd_enabled(self, ev: tuple) -> bool:
+        if ev[2] == "ws_wait":  # pure guard: lets a source wait for the handshake response
+            return self.upgraded()
         if ev[2] == "ws_raw":
             return self.h1 is not None and self.h1.switched
         if ev[2] == "ws_data":
@@ -104,6 +112,8 @@ class GuardClient(Client):
         return super().cmd_enabled(ev)
 
     def command(self, ev: tuple) -> bytes:
+        if ev[2] == "ws_wait":
+            return b""
         if ev[2] == "ws_raw":
             return ev[3]
         return super().command(ev)
@@ -320,6 +330,8 @@ def oracle(w: Any, params: Any, case: dict) -> List[dict]:
             sites.setdefault(site, v["detail"])
     for site, detail in sorted(sites.items()):
         out.append(V("internal-error", f"{carrier}:{site}", detail))
+    if sites:  # whatever else goes wrong in this execution is (also) a consequence of the crash
+        tag2 += ":crashed"
     if cl.error is not None:
         out.append(V("client-parse", f"{tag2}:{cl.error.split(':')[0]}", cl.error))
     wsp = cl.ws if carrier == "ws/h1" else cl.h2.ws.get(1)
